@@ -630,3 +630,28 @@ def enum_depth_pairs(triples=False):
                     for g2 in glues:
                         for z in toks[:6]:
                             yield normalize(x + g + y + g2 + z)
+
+
+def enum_flag_family():
+    """Case flags before, between and inside branches (the encoder emits flags per literal and the
+    regex flag state flows into groups; the parser threads flags textually through branches)."""
+    fl = [None, ("flag", "(?i)", True), ("flag", "(?-i)", False)]
+    L = lambda t: [("lit", t)]
+    mids = [
+        L("b"),
+        [("alt", [L("b"), L("c")])],
+        [("alt", [[("flag", "(?-i)", False)] + L("b"), L("c")])],
+        [("alt", [[("flag", "(?i)", True)] + L("b"), L("c")])],
+        [("alt", [[("alt", [L("b")])]])],
+        [("rep", L("b"), (1, 2))],
+        [("rep", [("flag", "(?-i)", False)] + L("b"), (1,))],
+        [("rep", [("flag", "(?i)", True)] + L("b"), (1, 2))],
+        [("class", False, [("c", "b"), ("c", "c")])],
+        [("alt", [L("b") + [("sep",)] + L("c"), L("d")])],
+    ]
+    for f1 in fl:
+        for f2 in fl:
+            for mid in mids:
+                for f3 in fl:
+                    g = ([f1] if f1 else []) + L("a") + ([f2] if f2 else []) + mid + ([f3] if f3 else []) + L("k")
+                    yield normalize(g)
